@@ -855,6 +855,103 @@ def rule_o9(F):
     return r
 
 
+def rule_o10(F):
+    """Every operand that the language always evaluates is lowered on every path of the method that lowers its construct: a
+    sub-expression parameter (`&Meta<ast::Expr>`) of a lowering method is handed to `expr` / `stmt` or to another lowering method on
+    every path to the return.  The only way round it is an inspection of THAT operand that came out positive (`if let Some(b) =
+    literal_of(l)`: a literal has no effects to lose).  For the short-circuit operators this is demanded of the left operand only -
+    the right one is evaluated or not as the left one decides.  (A fold of `x && false` to `false` that looks only at the right
+    operand drops the host calls in `x`.)"""
+    r = RuleResult("C08.O10", "always-evaluated operands are lowered on every path of their lowering method (skipped only after an inspection of that very operand)", floor=8)
+    bodies = [b for b in F.bodies_in(["src/mir/lower.rs", "src/mir/lower/match_expr.rs"]) if b.mir and "Lowerer" in b.path and "{closure" not in b.path and "::tests::" not in b.path]
+    by = {b.path: b for b in bodies}
+    for b in bodies:
+        argc = b.mir.get("argc", 0)
+        ls = b.mir["locals"]
+        if argc < 2 or "Lowerer" not in str(ls[1].get("ty") or ""):
+            continue
+        eparams = [i for i in range(2, argc + 1) if str(ls[i].get("ty") or "").replace(" ", "") in ("&ast::Meta<ast::Expr>", "&parser::meta::Meta<ast::Expr>") or
+                   (str(ls[i].get("ty") or "").startswith("&") and str(ls[i].get("ty") or "").endswith("Meta<ast::Expr>") and "Option" not in str(ls[i].get("ty")) and "[" not in str(ls[i].get("ty")))]
+        if not eparams:
+            continue
+        if hir.last(b.path) in ("expr", "stmt"):
+            continue        # the dispatchers themselves
+        if "shortcircuit" in hir.last(b.path):
+            eparams = eparams[:1]
+        defs = mir.Defs(b)
+
+        def roots(op):
+            if not mir.is_place_op(op):
+                return set()
+            l = op[1][0]
+            if 1 <= l <= argc:
+                return {l}
+            return {int(x[3:].split(".")[0]) for x in deps(b, defs, l) if x.startswith("arg") and x[3:].split(".")[0].isdigit()}
+        rets = [bi for bi, blk in enumerate(b.blocks) if blk["term"]["k"] == "return"]
+        for pidx in eparams:
+            visits = set()
+            for bi, t in mir.calls(b):
+                c = mir.callee(t) or ""
+                if not c.startswith("mir::lower::") or not t["args"]:
+                    continue
+                cb = by.get(c)
+                takes_self = cb is not None and cb.mir.get("argc", 0) >= 1 and "Lowerer" in str(cb.mir["locals"][1].get("ty") or "") or hir.last(c) in ("expr", "stmt", "block")
+                if takes_self and any(pidx in roots(a) for a in t["args"][1:]):
+                    visits.add(bi)
+            if not visits:
+                continue        # the method does not lower this parameter at all (it only reads its type / span)
+            # edges that are justified skips: the positive outcome of an inspection of this very operand
+            cut = set()
+            for bi, blk in enumerate(b.blocks):
+                t = blk["term"]
+                if t["k"] != "switch" or not mir.is_place_op(t["o"]):
+                    continue
+                subj = None
+                flip = False
+                for d in defs.whole_defs(t["o"][1][0]):
+                    if d[2] == "assign" and d[3]["rv"]["k"] == "discr":
+                        pl = d[3]["rv"]["p"]
+                        rs = {int(x[3:].split(".")[0]) for x in deps(b, defs, pl[0], proj=list(pl[1:])) if x.startswith("arg") and x[3:].split(".")[0].isdigit()} if not (1 <= pl[0] <= argc) else {pl[0]}
+                        subj = ("discr", rs, d[3]["rv"].get("ty") or "")
+                    elif d[2] == "assign" and d[3]["rv"]["k"] == "un" and d[3]["rv"].get("op") == "Not" and mir.is_place_op(d[3]["rv"].get("o")):
+                        subj = ("bool", roots(d[3]["rv"]["o"]), "bool")
+                        flip = True
+                    elif d[2] == "call":
+                        subj = ("bool", set().union(*[roots(a) for a in d[3]["args"]]) if d[3]["args"] else set(), "bool")
+                if subj is None or subj[1] - {1} != {pidx}:
+                    continue
+                tg = dict(t["targets"])
+                if subj[0] == "discr" and "Option" in subj[2]:
+                    pos = [tg.get(1)] if 1 in tg else [t["otherwise"]]
+                elif subj[0] == "discr":
+                    # a match on the kind of the operand itself (`match &function.node { Path(..) => .., Access(e, _) => self.expr(e) .. }`):
+                    # the arms that name a kind have looked at it; the catch-all has not
+                    pos = [e_ for _, e_ in t["targets"]]
+                else:
+                    pos = [t["otherwise"]] if not flip else [tg.get(0)]
+                for e_ in pos:
+                    if e_ is not None:
+                        cut.add((bi, e_))
+            seen, work = set(), [0]
+            while work:
+                x = work.pop()
+                if x in seen or x in visits:
+                    continue
+                seen.add(x)
+                for y in mir.succs(b.blocks[x]):
+                    if (x, y) in cut or b.blocks[y].get("cleanup"):
+                        continue
+                    work.append(y)
+            skipping = [x for x in rets if x in seen]
+            name = ls[pidx].get("name") or "arg%d" % pidx
+            r.inst("%s(%s)" % (hir.last(b.path), name), {"fn": b.path, "operand": name, "lowered_at_blocks": len(visits), "paths_that_skip_it": len(skipping), "excused_edges": len(cut)})
+            if skipping:
+                r.bad(b.path, "operand `%s` not lowered on some path" % name, relfile(b.file), b.line,
+                      "%s can return without lowering its operand `%s` on a path where nothing was found out about that operand: whatever it calls is not evaluated "
+                      "(`probe(1) && false` folded to `false` never calls `probe`)" % (hir.last(b.path), name))
+    return r
+
+
 def rules(ctx):
     F = ctx["F"]
-    return [rule_o1(F), rule_o2(F), rule_o3(F), rule_o4(F), rule_o5(F), rule_o6(F), rule_o7(F), rule_o8(F), rule_o9(F)]
+    return [rule_o1(F), rule_o2(F), rule_o3(F), rule_o4(F), rule_o5(F), rule_o6(F), rule_o7(F), rule_o8(F), rule_o9(F), rule_o10(F)]
